@@ -55,6 +55,22 @@ type Location struct {
 	Fetches int
 	Variant string // "" = authentic; otherwise a forged/odd variant of Versions[Cur] is served
 	vcache  map[string]*CRLSpec
+	pcache  map[string]*x509.Certificate
+}
+
+// ProbeCert returns a real, parsed certificate (no CDP, no AIA) of the location's issuer with the
+// given serial; observation probes use it so that they see exactly what a handshake would see.
+func (l *Location) ProbeCert(serial *big.Int) *x509.Certificate {
+	k := serial.String()
+	if c, ok := l.pcache[k]; ok {
+		return c
+	}
+	if l.pcache == nil {
+		l.pcache = map[string]*x509.Certificate{}
+	}
+	c := l.Issuer.Issue(EEOpts{Serial: serial, CDP: []string{}})
+	l.pcache[k] = c
+	return c
 }
 
 // Doc returns the document currently published at the location (version Cur, variant applied).
@@ -101,6 +117,8 @@ type WorldOpts struct {
 	RSA          bool
 	Intermediate bool
 	KeyUsageOff  bool
+	DNShapeA     int // shape of the issuing CAs' names (0: canonical)
+	DNShapeB     int
 }
 
 func NewWorld(h *Harness, o WorldOpts) *World {
@@ -117,8 +135,8 @@ func NewWorld(h *Harness, o WorldOpts) *World {
 		w.Int = NewCA(w.Root, CAOpts{CN: "Sim Intermediate", RSA: rsa(2)})
 		parent = w.Int
 	}
-	w.A = NewCA(parent, CAOpts{CN: "Sim Issuing A", RSA: rsa(3), NoKeyUse: o.KeyUsageOff})
-	w.B = NewCA(parent, CAOpts{CN: "Sim Issuing B", RSA: rsa(4)})
+	w.A = NewCA(parent, CAOpts{CN: "Sim Issuing A", RSA: rsa(3), NoKeyUse: o.KeyUsageOff, DNShape: o.DNShapeA})
+	w.B = NewCA(parent, CAOpts{CN: "Sim Issuing B", RSA: rsa(4), DNShape: o.DNShapeB})
 	w.Sib = NewCA(nil, CAOpts{CN: "x", SubjectOf: w.A, RSA: rsa(6)})
 	w.X = NewCA(nil, CAOpts{CN: "Stranger X", RSA: rsa(5)})
 	return w
@@ -273,7 +291,7 @@ func (l *Location) Pattern(n *Node) string {
 	h := l.w.h
 	var bits strings.Builder
 	probe := func(s *big.Int) bool {
-		r, err := h.PureProbe(n, l.Issuer.Cert.RawSubject, s)
+		r, err := h.PureProbeCert(n, l.ProbeCert(s))
 		h.R.Checks++
 		if err != nil {
 			bits.WriteByte('E')
